@@ -16,6 +16,28 @@ def _estimate_system_molecular_weight(molecules, system_molweight):
     estimated_weights = []
     if system_molweight:
         estimated_weights.append(system_molweight)
+        # With a known system mass, every specified component is fully determined.
+        for mol in molecules:
+            if mol.mixture is not None:
+                mol.mixture.system_mass = system_molweight
+    elif all(mol.mixture is not None for mol in molecules):
+        # Several absolute masses that share the percentage not claimed by the other components
+        # determine the system mass as well.
+        only_absolute = [
+            mol.mixture
+            for mol in molecules
+            if mol.mixture.relative_mass is None and mol.mixture.absolute_mass
+        ]
+        claimed_fraction = sum(
+            mol.mixture.relative_mass
+            for mol in molecules
+            if mol.mixture.relative_mass is not None
+        )
+        if 1 < len(only_absolute) < len(molecules) and claimed_fraction < 100.0:
+            total_absolute = sum(mixture.absolute_mass for mixture in only_absolute)
+            derived_weight = total_absolute / (1.0 - claimed_fraction / 100.0)
+            for mol in molecules:
+                mol.mixture.system_mass = derived_weight
     num_fractions = 0
     total_fraction = 0
     total_mass = 0
